@@ -8,15 +8,15 @@ TRUST = "trusted: go/types+go/ssa (x/tools v0.29.0), the engine's instruction se
 claimed = {
  "C01": dict(
    text="for each of the 32 operations the real method, sendto/broadcast, codec.Marshal (reflection walk), every MarshalUT0311L0x and bcd.Encode are executed symbolically with all arguments symbolic over their whole domain; the 64 request bytes recorded at the transport seam are asserted equal to an independent protocol table; unsat = holds for every argument tuple in the stated domain",
-   note="bounds: years 1..9999, HH:mm 00:00..24:00, PIN 0..999999, map keys 1..5 / the seven weekdays with symbolic presence and nil-ness, passcode lists of length 0,1,3,4,6; zone = any fixed offset (Z1); history half: every operation after an earlier unrelated call with its own symbolic arguments on the same or another client (6 operations quick, all 36 thorough), and with a configured controller whose transport fails (exactly one request, no retry on another route). " + TRUST,
+   note="bounds: years 1..9999, HH:mm 00:00..24:00, PIN 0..999999, map keys 1..5 / the seven weekdays with symbolic presence and nil-ness, passcode lists of length 0,1,3,4,6; zone = any fixed offset (Z1); history half: every operation after an earlier unrelated call with its own symbolic arguments on the same or another client (6 operations quick, all 36 thorough), and with a configured controller whose transport fails (exactly one request, no retry on another route); SetTime also for a controller configured with a time zone (nil, UTC, process zone); socket level: one call puts exactly one request on the wire (SendUDP, BroadcastTo) whenever the reply comes. " + TRUST,
    ref="DESIGN.md section 6 C01"),
  "C02": dict(
    text="for each of the 30 reply-bearing operations the whole 64-byte reply is symbolic (2^512 contents, header fixed so that it is accepted); sendto, codec.UnmarshalAs (reflection walk), every UnmarshalUT0311L0x, bcd.Decode and the result mapping / sentinel logic are executed symbolically and every result field is asserted equal to an independent protocol-table decoding; out-of-domain wire values must fail the call or come back as the zero value",
-   note="zone = any fixed offset; years 0000/0001 and the two-digit system-date years 69..99 are not asserted on; By-id lookups with a requested card 0xffffffff follow the code's behaviour. " + TRUST,
+   note="zone = any fixed offset; years 0000/0001 and the two-digit system-date years 69..99 are not asserted on; By-id lookups with a requested card 0xffffffff follow the code's behaviour; GetTime and GetStatus also for a controller configured with a time zone (nil, UTC, process zone) on the directed route; one event delivered by Listen. " + TRUST,
    ref="DESIGN.md section 6 C02"),
  "C03": dict(
    text="the library's real receive filter and sendto checks are run on k datagrams of symbolic length 0..2048 and content (broadcast route) or one such datagram (udp/tcp routes): a result implies a 64-byte datagram with the right protocol id, function code and serial number, it is the first such datagram, its content is what is decoded, anything else fails the call; SetAddress consumes nothing",
-   note="bounds: k <= 2 datagrams quick, <= 4 thorough (longer sequences argued from the loop being memoryless); representative operations GetCards, OpenDoor, GetStatus at the seam with content checks, all 30 reply-bearing operations with the accept/reject half (one datagram, broadcast and directed routes); socket level: GetCards through the real ut0311.SendUDP / SendTCP / BroadcastTo over the socket script (datagrams / TCP chunks of length 0..96, k <= 2, 3 thorough), replayed natively against a loopback peer. " + TRUST,
+   note="bounds: k <= 2 datagrams quick, <= 4 thorough (longer sequences argued from the loop being memoryless); representative operations GetCards, OpenDoor, GetStatus at the seam with content checks, all 30 reply-bearing operations with the accept/reject half (one datagram, broadcast and directed routes); socket level: GetCards through the real ut0311.SendUDP / SendTCP / BroadcastTo over the socket script (datagrams / TCP chunks of length 0..96, k <= 2, 3 thorough), replayed natively against a loopback peer; directed UDP also with two datagrams (nothing is skipped); a non-decimal date / date-time field in a reply that otherwise passes as the controller's makes the call fail (nine fields of six replies, three routes). " + TRUST,
    ref="DESIGN.md section 6 C03"),
  "C04": dict(
    text="every runtime panic of the interpreted code (index and slice bounds, nil dereference, nil-map write, failed type assertion, division by zero, explicit panic, reflect misuse) is a solver obligation in the engine; the harnesses drive the 30 reply-bearing operations with an arbitrary reply of symbolic length 0..2048 on four routes (broadcast filter, UDP, TCP nil reply, transport error), then render the result with String() and JSON; plus the codec and dispatcher entry points, discovery and the listener's datagram handler on arbitrary byte strings, arbitrary argument values (passcode lists up to 6), and a shutdown of the real socket-level Listen while one event is still being delivered to a slow callback and a second one waits at the pipe (timer-driven schedule; a send on the closed pipe would be a panic in a library goroutine)",
@@ -24,11 +24,11 @@ claimed = {
    ref="DESIGN.md section 6 C04"),
  "C05": dict(
    text="for each of the 65 message struct types a reflection-driven harness fills every field with a symbolic in-domain value, runs codec.Marshal then codec.Unmarshal and asserts field-wise equality; for 8 (quick) / 65 (thorough) types two symbolic buffers that agree on all field bytes are asserted to decode to equal values; UnmarshalRequest/UnmarshalResponse are run on a header with symbolic length, protocol id and function code (33-way case split decided by the solver)",
-   note="zone = any fixed offset; years 1..9999 plus the zero values; SystemDate 2000..2068; dispatcher bodies are zero bytes (body decoding is C02/C04); the field-byte mask is derived from the layout tags. " + TRUST,
+   note="zone = any fixed offset; years 1..9999 plus the zero values; SystemDate 2000..2068; dispatcher bodies are zero bytes with any serial number (body decoding is C02/C04; a known function code must decode); the field-byte mask is derived from the layout tags. " + TRUST,
    ref="DESIGN.md section 6 C05"),
  "C06": dict(
    text="routing decision executed symbolically over the device table (entry present or not, one unrelated entry), address validity, any IPv4 address and port, protocol strings of length 0,3,4 (1,2 thorough) with symbolic bytes, broadcast address valid or not: asserted which driver method is called, exactly once, with which endpoint",
-   note="seam level for the routing decision (GetTime, OpenDoor, SetAddress, GetDevices over the full configuration space; all 30 reply-bearing operations with one protocol-string length); socket level (the four ut0311 methods over the socket script, natively a loopback peer) for: exactly one socket, bound to the configured bind address/port (not configured, 0.0.0.0:0, 0.0.0.0:P, 127.0.0.1:P with P in 20000..29999), exactly one write of the unchanged request to the requested endpoint, nothing to any other endpoint, socket closed; IPv6 controller addresses are outside the property. " + TRUST,
+   note="seam level for the routing decision (GetTime, OpenDoor, SetAddress, GetDevices over the full configuration space; all 30 reply-bearing operations with one protocol-string length); socket level (the four ut0311 methods over the socket script, natively a loopback peer) for: exactly one socket, bound to the configured bind address/port (not configured, 0.0.0.0:0, 0.0.0.0:P, 127.0.0.1:P with P in 20000..29999), exactly one write of the unchanged request to the requested endpoint, nothing to any other endpoint, socket closed; SendUDP uses a connected socket (a datagram from another port of the peer is not taken for the reply); routing is unchanged by an earlier successful SetAddress / discovery on the same client; IPv6 controller addresses are outside the property. " + TRUST,
    ref="DESIGN.md section 6 C06"),
  "C07": dict(
    text="one harness per operation with symbolic controller id and arguments; 'rejected' is observed as the transport call counter staying 0 and asserted equivalent to the documented rejection predicate (id 0; PutCard card/PIN/format rules incl. Wiegand-26 over all 2^32 numbers; SetListener over invalid/IPv4/16-byte address kinds; SetAddress over nil and length 0..16 IPs; SetDoorPasscodes doors; SetTimeProfile dates/segments)",
